@@ -321,8 +321,8 @@ func c09Pairing(c *Check, sp *ssa.Package) []string {
 	// reader: function with HasSuffix(path, const) tests followed by Unmarshal
 	type arm struct {
 		suffix, codec string
-		pos          string
-		ord          int
+		pos           string
+		ord           int
 	}
 	var arms []arm
 	var reader *ssa.Function
